@@ -344,3 +344,54 @@ func ZZ_C06_Struct() {
 	}
 	zzrt.Cover("struct-done")
 }
+
+// ZZ_C06_LengthBoundary: packets whose property length and remaining length sit on and
+// around the variable-byte-integer boundaries (127|128, 16383|16384): a PUBLISH with a
+// long user property, or a CONNECT whose will carries a long content type.  Same oracle
+// as ZZ_C06_Struct (size, independent decoder, own decoder).
+func ZZ_C06_LengthBoundary() {
+	bases := []int{110, 16366}
+	L := bases[zzrt.Choice(zzrt.Param("BASES"))] + zzrt.Choice(zzrt.Param("W"))
+	val := make([]byte, L)
+	for i := range val {
+		val[i] = 'a'
+	}
+	ver := Version5
+	var p Packet
+	kind := zzrt.Choice(2)
+	switch kind {
+	case 0:
+		p = &Publish{Version: ver, FixHeader: &FixHeader{PacketType: PUBLISH}, Qos: 1, PacketID: zzrt.Uint16(), TopicName: []byte("t"), Payload: []byte{1},
+			Properties: &Properties{User: []UserProperty{{K: []byte("k"), V: val}}}}
+		zzrt.Assume(p.(*Publish).PacketID != 0)
+		p.(*Publish).FixHeader.Flags = 2
+	default:
+		p = &Connect{Version: ver, FixHeader: &FixHeader{PacketType: CONNECT}, ProtocolName: []byte("MQTT"), ProtocolLevel: 5, ClientID: []byte("c"),
+			CleanStart: true, WillFlag: true, WillQos: 1, WillTopic: []byte("w"), WillMsg: []byte{2}, KeepAlive: zzrt.Uint16(),
+			Properties: &Properties{}, WillProperties: &Properties{ContentType: val}}
+	}
+	zzrt.Observe("len", L)
+	zzrt.Observe("kind", kind)
+	want := zzCanonOf(p, ver)
+	var buf bytes.Buffer
+	zzrt.Assert(p.Pack(&buf) == nil, "well-formed-value-encodes")
+	out := buf.Bytes()
+	zzrt.Observe("outlen", len(out))
+	zzrt.Assert(uint32(len(out)) == TotalBytes(p), "reported-size-equals-encoded-length")
+	got, used, verdict := zzref.DecodePacket(out, zzRefVersion(ver))
+	zzrt.Assert(verdict >= zzref.Invalid, "encoding-is-valid-for-the-independent-decoder")
+	if verdict >= zzref.Invalid {
+		zzrt.Assert(used == len(out), "encoding-is-one-whole-packet")
+		zzrt.Assert(zzFieldsEq(got, want), "independent-decoder-reads-back-the-field-values")
+	}
+	src := bytes.NewReader(out)
+	rd := NewReader(src)
+	rd.SetVersion(ver)
+	p2, err := rd.ReadPacket()
+	zzrt.Assert(err == nil && p2 != nil, "own-decoder-accepts-the-encoding")
+	if err == nil {
+		zzrt.Assert(src.Len()+rd.bufr.Buffered() == 0, "own-decoder-consumes-the-whole-encoding")
+		zzrt.Assert(zzFieldsEq(zzCanonOf(p2, ver), want), "own-decoder-reads-back-the-field-values")
+	}
+	zzrt.Cover("boundary-done")
+}
